@@ -1078,6 +1078,10 @@ func (e *Env) evalCall(n *Node) specVal {
 			blen := v.smt.declareFun("uf!blobLen", []string{"Int"}, "Int")
 			v.smt.axiom(fmt.Sprintf("(forall ((x Int)) (! (= (%s (%s x)) 20) :pattern ((%s x))))", blen, f, f))
 			return specVal{t: app(fromBlob, ite(eq(app(blen, b.t), "20"), b.t, app(f, b.t))), typ: h20}
+		case "transmitted":
+			// transmitted(m): message object m was handed to TransmitMessage during this call
+			x := e.eval(args[0])
+			return specVal{t: sel(v.heap(e.st, v.ghostKey("transmitted", "(Array Int Bool)")), x.t), typ: tBool}
 		case "nseed":
 			return specVal{t: v.heap(e.st, v.ghostKey("nseed", "Int")), typ: tInt}
 		case "clock":
